@@ -137,6 +137,37 @@ pub fn class_stmt(g: &mut Gen, out: &mut Vec<Stmt>) {
                 // Self denotes the class the method was invoked through
                 body.push(Stmt::print(Expr::CapSelf));
             }
+            if g.rd.chance(1, 2) {
+                // members reached through Self: the constructor (a new instance, also when this method
+                // was reached through an existing instance), an earlier static method, an instance
+                // method or field name (which the class object does not have)
+                g.label_pub("member_through_self");
+                match g.rd.below(4) {
+                    0 | 1 => {
+                        let (cn, ca) = ctor.clone().unwrap_or(("new".into(), 0));
+                        let args: Vec<Expr> = (0..ca).map(|q| Expr::Num(q as f64 + 6.0)).collect();
+                        let made = g.fresh_pub("made");
+                        body.push(Stmt::var(&made, Some(Expr::invoke(Expr::CapSelf, &cn, args))));
+                        body.push(Stmt::print(Expr::callv("type", vec![Expr::var(&made)])));
+                        if let Some(f) = fields.first() {
+                            body.push(Stmt::print(Expr::get(Expr::var(&made), f)));
+                        }
+                    }
+                    2 => {
+                        let lower: Vec<(String, usize, bool)> = minfo.iter().cloned().filter(|m| m.2 && m.0 < mname).collect();
+                        if let Some((sn, sa, _)) = lower.first().cloned() {
+                            let args: Vec<Expr> = (0..sa).map(|q| Expr::Num(q as f64 + 8.0)).collect();
+                            body.push(Stmt::print(Expr::invoke(Expr::CapSelf, &sn, args)));
+                        } else {
+                            body.push(Stmt::print(Expr::invoke(Expr::CapSelf, "no_such_static", vec![])));
+                        }
+                    }
+                    _ => {
+                        let f = if let Some(f) = fields.first() { f.clone() } else { "p0".to_string() };
+                        body.push(Stmt::print(Expr::get(Expr::CapSelf, &f)));
+                    }
+                }
+            }
             // a static method of the superclass reached through super: Self stays what it was
             if let Some((_, si)) = &superclass {
                 let statics: Vec<_> = all_methods(g, *si).into_iter().filter(|m| m.2 && m.0 <= mname).collect();
